@@ -171,6 +171,11 @@ func (a *AvahiProvider) Announce(serviceName string, port int, txt []string) err
 	a.mux.Lock()
 	defer a.mux.Unlock()
 
+	return a.announce(serviceName, port, txt)
+}
+
+// announce the service, the mutex has to be locked by the caller
+func (a *AvahiProvider) announce(serviceName string, port int, txt []string) error {
 	// store the data for reconnection
 	a.mdnsServiceData = &mdnsServiceData{
 		Name: serviceName,
@@ -268,16 +273,15 @@ func (a *AvahiProvider) attemptReconnect(cb api.MdnsResolveCB) {
 		logging.Log().Debug("mdns: avahi - reconnected")
 
 		// announce the service with the most recent data, but only if it
-		// still should be announced
+		// still should be announced. Checking this and announcing has to be one step,
+		// otherwise an unannounce coming in between would be reverted
 		a.mux.Lock()
-		serviceData := a.mdnsServiceData
-		a.mux.Unlock()
-
-		if serviceData != nil {
-			if err := a.Announce(serviceData.Name, serviceData.Port, serviceData.Txt); err != nil {
+		if serviceData := a.mdnsServiceData; serviceData != nil {
+			if err := a.announce(serviceData.Name, serviceData.Port, serviceData.Txt); err != nil {
 				logging.Log().Debug("mdns: avahi - error re-announcing service:", err)
 			}
 		}
+		a.mux.Unlock()
 
 		return
 	}
